@@ -39,6 +39,10 @@ def strip_header(t4):
 
 def gen_deck(rng):
     m = rng.random()
+    if m < 0.08:
+        # surfaces referred to as seen from a cell with a TRCL (1000*cell+surface): generated, hence commented, surfaces
+        from . import c04
+        return c04.implicit_deck(rng)[0]
     if m < 0.35:
         d = G.build_flat_deck(rng, macro_p=0.3, tr_p=0.2)
     elif m < 0.7:
